@@ -262,6 +262,11 @@ func VerifTrackerHistory() {
 			ev := &aucoalesce.Event{Session: sid, Type: auparse.AuditMessageType(typ), Result: "success", Timestamp: verifrt.Unix(step)}
 			ev.Process.PID = pidStr
 			ev.Summary.Action = tag
+			if isLogin {
+				// the record's other fields: the session the process was in before (any id, in
+				// particular that of another session of the history, or 4294967295 for none)
+				ev.Data = map[string]string{"old-ses": verifrt.Str("old-ses", 1, 2, `[0-9]`), "old-auid": "4294967295", "auid": "1000"}
+			}
 			// ghost
 			valid := sid == s.sid
 			switch {
@@ -371,6 +376,14 @@ func VerifTrackerHistory() {
 			verifrt.Assert("c16.emissions-follow-window-rule", len(got) == len(expect))
 			if len(expect) > 0 {
 				verifrt.Reach("c16.correlated-despite-cleanup")
+			}
+		}
+		// C01: whatever this step emitted - expected in number or not - carries the identity of the
+		// login whose PID opened that session; with no such login available nothing may be emitted
+		for _, e := range got {
+			verifrt.Assert("c01.emitted-only-with-its-own-login", expectLogin >= 0)
+			if expectLogin >= 0 {
+				verifIdentityIs("c01.identity", e, expectLogin)
 			}
 		}
 		verifrt.Assert("c02.count", len(got) == len(expect))
